@@ -1430,6 +1430,24 @@ pub fn run_op(actor: usize, idx: usize, op: Op, pool: &mut Option<SPool>) {
             with_w(|w| w.op_return(opi, r.err().unwrap_or(OpRes::Unit)));
         }
         Op::Nop => {}
+        Op::GetUnpolled { explicit } => {
+            let Some(p) = pool.as_ref() else { return };
+            let opi = with_w(|w| {
+                w.cnt.fault("get_future_dropped_unpolled");
+                w.op_invoke(actor, idx, op)
+            });
+            let r = guarded(|| {
+                if explicit {
+                    let t = Timeouts::new();
+                    let f = p.timeout_get(&t);
+                    drop(f);
+                } else {
+                    let f = p.get();
+                    drop(f);
+                }
+            });
+            with_w(|w| w.op_return(opi, r.err().unwrap_or(OpRes::Unit)));
+        }
         Op::Sibling { kind } => {
             let opi = with_w(|w| {
                 w.cnt.fault("sibling_pool_churn");
